@@ -13,6 +13,9 @@ FAULTS = [
     "take it to", "take it to the", "break it", "\"unterminated", "say \"unterminated", "say (unterminated", "rock X with", "rock X like",
     "X is a-", "X is -a", "say X at", "say X at at 1", "say roll", "let X at be 1", "build it", "knock the walls,", "say 1 , , 2",
     "say 1 nor", "say not", "say -", "say 1 over", "F takes X and", "F taking 1,", "F taking 1 &", "put 1 into X at", "listen to 5", "turn up",
+    # invalid identifiers with non-ASCII letters, digits and other numerics, at statement start and as operands
+    "mētäl2 is 5", "ÿ2k says hi", "put 1 into café1", "naïve² is 4", "x² is 1", "é1", "say é1", "É9 takes X", "build ü3 up", "日本1 is 2",
+    "x٣ is 1", "ab½ is 1", "put é_é into X", "Ünï1 Cörn is 3",
 ]
 
 
@@ -33,7 +36,7 @@ def run(chk):
         npre = pre.count("\n")
         ls = (pre + p).split("\n")
         for _ in range(2 if quick else 6):
-            fault = rng.choice(FAULTS)
+            fault = FAULTS[len(cases) % len(FAULTS)] if len(cases) < 3 * len(FAULTS) else rng.choice(FAULTS)   # every fault at least a few times
             # positions: between statements at top level or inside blocks: any line index; the fault REPLACES
             # nothing, it is inserted as its own line, so the prefix before it is a prefix of a valid program
             k = rng.randrange(npre, len(ls))      # never inside a multi-line token of the prelude
